@@ -301,8 +301,10 @@ func inCampaign(r *ev.Run, prop string) {
 				}
 				if hits >= 2 {
 					r.Violation(mine, detail)
+				} else if hits == 0 {
+					transient(r, "rejected input trace (%s): %v\n trace %v at %d", mine, ru.sched, traces[k], at)
 				} else {
-					r.Inconclusive("rejected input trace did not reproduce (%s): %v\n trace %v at %d", mine, ru.sched, traces[k], at)
+					r.Inconclusive("rejected input trace reproduced only once in four re-executions (%s): %v\n trace %v at %d", mine, ru.sched, traces[k], at)
 				}
 			default:
 				fmt.Printf("note: rejected input trace attributed to %v; reported by that property's check\n", attrs)
